@@ -144,6 +144,85 @@ example : MatZnx.readFrom ⟨0, 0, 0, 0, 0, List.replicate 8 9⟩
     (leBytes 8 1 ++ leBytes 8 1 ++ leBytes 8 1 ++ leBytes 8 1 ++ leBytes 8 1 ++ leBytes 8 8 ++ List.replicate 8 5) =
     .ok () ⟨1, 1, 1, 1, 1, List.replicate 8 5⟩ [] := by decide
 
+def ScalarWF (x : ScalarZnx) : Prop := x.n < 2 ^ 64 ∧ x.cols < 2 ^ 64 ∧ x.data.length < 2 ^ 64
+
+/-- round trip for `ScalarZnx`: `read (write x) = ok x` (dimensions, the `n·cols·8` active bytes; receiver bytes beyond
+stay, stream tail unread) for any receiver whose buffer holds `n·cols·8` bytes, in both build profiles -/
+theorem scalar_read_write (x r : ScalarZnx) (p : Profile) (tail : Bytes) (hw : ScalarWF x) (hi : x.Inv)
+    (hcap : x.n * x.cols * 8 ≤ r.data.length) :
+    ∃ bs, x.writeTo p = .ok bs ∧
+      ScalarZnx.readFrom r (bs ++ tail) = .ok () ⟨x.n, x.cols, x.data.take (x.n * x.cols * 8) ++ r.data.drop (x.n * x.cols * 8)⟩ tail := by
+  obtain ⟨hn, hc, hd⟩ := hw
+  unfold ScalarZnx.Inv at hi
+  have h2 : x.n * x.cols * 8 < 2 ^ 64 := by omega
+  have h1 : x.n * x.cols < 2 ^ 64 := by omega
+  refine ⟨leBytes 8 x.n ++ leBytes 8 x.cols ++ leBytes 8 (x.n * x.cols * 8) ++ x.data.take (x.n * x.cols * 8), ?_, ?_⟩
+  · unfold ScalarZnx.writeTo
+    simp only [bind, Outcome.bind, mulU_of_lt p h1, mulU_of_lt p h2]
+    have : ¬ x.data.length < x.n * x.cols * 8 := by omega
+    simp only [this, ↓reduceIte]
+  · unfold ScalarZnx.readFrom
+    simp only [List.append_assoc]
+    rw [readU64_le _ hn, readU64_le _ hc, readU64_le _ h2]
+    simp only [checkedMul_of_lt h1, checkedMul_of_lt h2, Option.bind_some, ne_eq, not_true_eq_false, ↓reduceIte, getS_bind]
+    have hb : ¬ r.data.length < x.n * x.cols * 8 := by omega
+    rw [if_neg hb, readExactInto_bind]
+    simp only [modifyS_apply]
+    have hl : (List.take (x.n * x.cols * 8) x.data).length = x.n * x.cols * 8 := by simp; omega
+    have hg : ¬ (x.n * x.cols * 8 > r.data.length) := by omega
+    have hlt : ¬ ((List.take (x.n * x.cols * 8) x.data ++ tail).length < x.n * x.cols * 8) := by simp; omega
+    simp only [hg, hlt, ↓reduceIte, List.take_left' hl, List.drop_left' hl]
+example : ScalarWF ⟨4, 2, List.replicate 64 3⟩ ∧ ScalarZnx.Inv ⟨4, 2, List.replicate 64 3⟩ := by
+  unfold ScalarWF ScalarZnx.Inv; decide
+
+/-- no partial product of the writer's / reader's length computation leaves `usize` (automatic when all
+dimensions are non-zero, since then every partial product is below the buffer length) -/
+def MatWF (m : MatZnx) : Prop :=
+  m.n < 2 ^ 64 ∧ m.size < 2 ^ 64 ∧ m.rows < 2 ^ 64 ∧ m.colsIn < 2 ^ 64 ∧ m.colsOut < 2 ^ 64 ∧ m.data.length < 2 ^ 64 ∧
+  m.n * m.colsOut < 2 ^ 64 ∧ m.n * m.colsOut * m.size < 2 ^ 64 ∧ m.n * m.colsOut * m.size * 8 < 2 ^ 64 ∧
+  m.rows * m.colsIn < 2 ^ 64 ∧ m.rows * m.colsIn * m.n < 2 ^ 64 ∧ m.rows * m.colsIn * m.n * m.colsOut < 2 ^ 64 ∧
+  m.rows * m.colsIn * m.n * m.colsOut * m.size < 2 ^ 64
+
+theorem mat_len_assoc (rows ci n co size : Nat) : rows * ci * (n * co * size * 8) = rows * ci * n * co * size * 8 := by
+  simp only [Nat.mul_assoc]
+
+/-- round trip for `MatZnx` -/
+theorem mat_read_write (x r : MatZnx) (p : Profile) (tail : Bytes) (hw : MatWF x) (hi : x.Inv)
+    (hcap : x.rows * x.colsIn * x.n * x.colsOut * x.size * 8 ≤ r.data.length) :
+    ∃ bs, x.writeTo p = .ok bs ∧
+      MatZnx.readFrom r (bs ++ tail) =
+        .ok () ⟨x.n, x.size, x.rows, x.colsIn, x.colsOut,
+          x.data.take (x.rows * x.colsIn * x.n * x.colsOut * x.size * 8) ++ r.data.drop (x.rows * x.colsIn * x.n * x.colsOut * x.size * 8)⟩ tail := by
+  obtain ⟨hn, hs, hr, hci, hco, hd, p1, p2, p3, q1, q2, q3, q4⟩ := hw
+  unfold MatZnx.Inv at hi
+  have hL : x.rows * x.colsIn * x.n * x.colsOut * x.size * 8 < 2 ^ 64 := by omega
+  have hw5 : x.rows * x.colsIn * (x.n * x.colsOut * x.size * 8) < 2 ^ 64 := by rw [mat_len_assoc]; exact hL
+  refine ⟨leBytes 8 x.n ++ leBytes 8 x.size ++ leBytes 8 x.rows ++ leBytes 8 x.colsIn ++ leBytes 8 x.colsOut ++
+      leBytes 8 (x.rows * x.colsIn * x.n * x.colsOut * x.size * 8) ++ x.data.take (x.rows * x.colsIn * x.n * x.colsOut * x.size * 8), ?_, ?_⟩
+  · unfold MatZnx.writeTo MatZnx.bytesOf
+    simp only [bind, Outcome.bind, mulU_of_lt p p1, mulU_of_lt p p2, mulU_of_lt p p3, mulU_of_lt p q1, mulU_of_lt p hw5, mat_len_assoc]
+    have : ¬ x.data.length < x.rows * x.colsIn * x.n * x.colsOut * x.size * 8 := by omega
+    simp only [this, ↓reduceIte]
+  · unfold MatZnx.readFrom
+    simp only [List.append_assoc]
+    rw [readU64_le _ hn, readU64_le _ hs, readU64_le _ hr, readU64_le _ hci, readU64_le _ hco, readU64_le _ hL]
+    have hcm : cmMat x.rows x.colsIn x.n x.colsOut x.size = some (x.rows * x.colsIn * x.n * x.colsOut * x.size * 8) := by
+      unfold cmMat
+      simp only [checkedMul_of_lt q1, checkedMul_of_lt q2, checkedMul_of_lt q3, checkedMul_of_lt q4, checkedMul_of_lt hL, Option.bind_some]
+    rw [hcm]
+    simp only [ne_eq, not_true_eq_false, ↓reduceIte, getS_bind]
+    have hb : ¬ r.data.length < x.rows * x.colsIn * x.n * x.colsOut * x.size * 8 := by omega
+    rw [if_neg hb, readExactInto_bind]
+    simp only [modifyS_apply]
+    have hl : (List.take (x.rows * x.colsIn * x.n * x.colsOut * x.size * 8) x.data).length = x.rows * x.colsIn * x.n * x.colsOut * x.size * 8 := by
+      simp; omega
+    have hg : ¬ (x.rows * x.colsIn * x.n * x.colsOut * x.size * 8 > r.data.length) := by omega
+    have hlt : ¬ ((List.take (x.rows * x.colsIn * x.n * x.colsOut * x.size * 8) x.data ++ tail).length < x.rows * x.colsIn * x.n * x.colsOut * x.size * 8) := by
+      simp; omega
+    simp only [hg, hlt, ↓reduceIte, List.take_left' hl, List.drop_left' hl]
+example : MatWF ⟨2, 1, 2, 1, 1, List.replicate 32 3⟩ ∧ MatZnx.Inv ⟨2, 1, 2, 1, 1, List.replicate 32 3⟩ := by
+  unfold MatWF MatZnx.Inv; decide
+
 /-! ## Part 2 — `Distribution` -/
 
 
